@@ -3,6 +3,7 @@
 -/
 import CC.Drv.Common
 import CC.ChaCha.Stream
+import CC.ChaCha.Eq
 namespace CC.Drv.ChaCha
 open CC CC.ChaCha CC.Drv
 
@@ -198,6 +199,14 @@ def step (cfg : Cfg) (st : St) : List String → St × String
     | some a, some b =>
       match getSlot st.guts a, getSlot st.guts b with
       | some x, some y => (st, toString (stream32Eq x y))
+      | _, _ => (st, "bad-op")
+    | _, _ => (st, "bad-op")
+  | ["guts", "eqd", a, b] =>
+    -- the derived `PartialEq` of `ChaCha` (three `vec128_storage` comparisons; CC.ChaCha.Guts.eqOn)
+    match a.toNat?, b.toNat? with
+    | some a, some b =>
+      match getSlot st.guts a, getSlot st.guts b with
+      | some x, some y => (st, toString (Guts.eqOn (if cfg.backend == "generic" then .generic else .sse2) x y))
       | _, _ => (st, "bad-op")
     | _, _ => (st, "bad-op")
   | ["guts", "eq64", a, b] =>
